@@ -324,6 +324,9 @@ func slice(x, lo, hi, max value) value {
 func lookup(instr *ssa.Lookup, x, idx value) value {
 	switch x := x.(type) { // map
 	case *omap:
+		if sched != nil {
+			sched.onMapRead(x)
+		}
 		v, ok := x.lookup(idx)
 		if !ok {
 			v = zero(instr.X.Type().Underlying().(*types.Map).Elem())
@@ -1035,6 +1038,9 @@ func callBuiltin(caller *frame, callpos token.Pos, fn *ssa.Builtin, args []value
 	case "delete": // delete(map[K]value, K)
 		switch m := args[0].(type) {
 		case *omap:
+			if sched != nil && m != nil {
+				sched.onMapWrite(m)
+			}
 			m.delete(args[1])
 		default:
 			panic(fmt.Sprintf("illegal map type: %T", m))
